@@ -45,9 +45,12 @@ def run_trace(job):
         if deny:
             base_cls = secsgem.gem.GemEquipmentHandler if role.startswith("equipment") else secsgem.gem.GemHostHandler
             extra["handler_cls"] = type("Denying", (base_cls,), {"on_commack_requested": lambda self: 1})
+        # the delay is configured after the handler was built (the settings property is the documented way; the equipment constant
+        # EstablishCommunicationsTimeout writes the same attribute): the *configured* delay counts, not the one at construction
         ep = hsmsrun.Ep(mode=mode, kind="equipment" if role.startswith("equipment") else "host", device_type=dt,
-                        settings={"establish_communication_timeout": D}, **extra)
+                        settings={"establish_communication_timeout": D + 4 if tid % 2 else D}, **extra)
         h = ep.handler
+        h.settings.establish_communication_timeout = D
         t3 = h.settings.timeouts.t3
         cbs = []
         h.register_stream_function(1, 1, lambda handler, message: cbs.append(message.header.system))
